@@ -2043,3 +2043,160 @@ pub fn gen_c18(rng: &mut Rng, d: &mut Dist, _idx: u64) -> Vec<String> {
     out.push("OP keep_check".into());
     out
 }
+
+
+thread_local! {
+    /// (base seed, base scenario, replies of its unmutated run: (request index, api key, payload))
+    static C13_BASE: std::cell::RefCell<Option<(u64, Vec<String>, Vec<(usize, i16, Vec<u8>)>)>> = std::cell::RefCell::new(None);
+}
+
+/// the replies a scenario receives when nothing is tampered with
+pub fn replies_of(lines: &[String]) -> Vec<(usize, i16, Vec<u8>)> {
+    let trace = crate::check::trace_scenario(lines);
+    let mut out = Vec::new();
+    let mut idx = 0usize;
+    let mut i = 0;
+    while i < trace.len() {
+        if let Some(rest) = trace[i].strip_prefix("REQ ") {
+            let frame = crate::lean::unhex(rest.split(' ').nth(1).unwrap_or(""));
+            let api = if frame.len() >= 6 { i16::from_be_bytes([frame[4], frame[5]]) } else { -1 };
+            if let Some(p) = trace.get(i + 1).and_then(|l| l.strip_prefix("RESP ")) {
+                out.push((idx, api, crate::lean::unhex(p)));
+            }
+            idx += 1;
+        }
+        i += 1;
+    }
+    out
+}
+
+/// C13: a valid history of public operations (client, consumer and producer layers, taken from the other properties'
+/// generators) in which one reply (sometimes two) is replaced by hostile bytes: every length / count / size field x
+/// boundary values, bit flips, truncation (consistent and mid-stream), random bytes, replies inconsistent with the
+/// request (other names, ids, duplicated / dropped / swapped elements, counts), hostile compressed payloads, deep nesting.
+/// Groups of 48 consecutive cases share one base history; even cases walk the (reply, field, value) grid systematically.
+pub fn gen_c13(rng: &mut Rng, d: &mut Dist, idx: u64) -> Vec<String> {
+    const GROUP: u64 = 48;
+    let group = idx / GROUP;
+    let cached = C13_BASE.with(|c| c.borrow().as_ref().map(|(g, _, _)| *g) == Some(group));
+    if !cached {
+        // the base history is a function of the group number only (and of the run's seed through `rng` of the first case)
+        let bases: [(&str, crate::check::Gen); 18] = [
+            ("c02-fetch", gen_c02),
+            ("c10-offsets", gen_c10),
+            ("c12-producer", gen_c12),
+            ("c05-produce", gen_c05),
+            ("c08-consumer-commit", gen_c08),
+            ("c01-consumer-poll", gen_c01),
+            ("c14-group", gen_c14),
+            ("c07-consumer-create", gen_c07),
+            ("c06-metadata", gen_c06),
+            ("c17-retry-sizes", gen_c17),
+            ("c19-consumer", gen_c19),
+            ("c18-nested", gen_c18),
+            ("c11-error-codes", gen_c11),
+            ("c16-settings", gen_c16),
+            ("c20-unknown-topics", gen_c20),
+            ("c15-byte-stream", gen_c15),
+            ("c03-produce-crc", gen_c03),
+            ("c04-fetch-crc", gen_c04),
+        ];
+        let (name, g) = bases[(group % bases.len() as u64) as usize];
+        bump(d, &format!("base-{}", name));
+        let mut scratch = Dist::new();
+        let sub = rng.next() % 1000;
+        let mut base = g(rng, &mut scratch, sub);
+        // long draining tails add nothing here
+        if base.len() > 120 {
+            base.truncate(120);
+        }
+        if std::env::var("KH_DEBUG").is_ok() {
+            eprintln!("c13 base {} group {} lines {}", name, group, base.len());
+        }
+        let replies = replies_of(&base);
+        if std::env::var("KH_DEBUG").is_ok() {
+            eprintln!("   replies {}", replies.len());
+        }
+        C13_BASE.with(|c| *c.borrow_mut() = Some((group, base, replies)));
+    }
+    let (base, replies) = C13_BASE.with(|c| {
+        let b = c.borrow();
+        let (_, base, replies) = b.as_ref().unwrap();
+        (base.clone(), replies.clone())
+    });
+    if replies.is_empty() {
+        bump(d, "no-replies");
+        return base;
+    }
+    let mut out = Vec::new();
+    let within = idx % GROUP;
+    if std::env::var("KH_DEBUG").is_ok() {
+        eprintln!("   case {} within {}", idx, within);
+    }
+    if within % 2 == 0 {
+        // systematic: spread over the grid of all (reply, field, boundary value) of this history
+        let total: usize = replies.iter().map(|(_, api, p)| crate::hostile::systematic_count(*api, p)).sum();
+        let mut i = ((within / 2) as usize * 7919 + (group as usize) * 104729) % total.max(1);
+        for (k, api, p) in &replies {
+            let n = crate::hostile::systematic_count(*api, p);
+            if i < n {
+                let (raw, label) = crate::hostile::systematic(*api, p, i);
+                let kind = label.split('@').next().unwrap_or("").split('=').next().unwrap_or("").to_string();
+                bump(d, &format!("api{}-field-{}", api, kind));
+                out.push(format!("H rawreply {} {}", k, hex(&raw)));
+                break;
+            }
+            i -= n;
+        }
+    } else if replies.iter().any(|r| r.1 == 1) && group % 2 == 0 && within / 2 < 21 {
+        // histories with fetches: every hostile compressed payload and a ladder of nesting depths, on a random fetch reply
+        let j = within / 2;
+        let cands: Vec<&(usize, i16, Vec<u8>)> = replies.iter().filter(|r| r.1 == 1).collect();
+        let (k, _, p) = (*rng.pick(&cands)).clone();
+        let w = crate::hostile::walk(1, &p);
+        let corr = p[..4.min(p.len())].to_vec();
+        let t = w.first_topic.clone().unwrap_or_default();
+        let part = w.first_partition.unwrap_or(0);
+        let set = if j < 16 {
+            let (codec, value, label) = crate::hostile::hostile_compressed(rng, j);
+            bump(d, &format!("api1-compressed-{}", label));
+            // sometimes behind a plain message and inside another wrapper
+            let mut set = Vec::new();
+            if rng.chance(1, 3) {
+                set.extend(raw_msg(4, 0, None, Some(b"plain"), 0));
+            }
+            set.extend(raw_msg(5, codec, None, Some(&value), 0));
+            if rng.chance(1, 4) {
+                let c = 1 + rng.below(2) as u8;
+                real_wrapper(rng, c, 5, &set)
+            } else {
+                set
+            }
+        } else {
+            let levels = [15usize, 16, 17, 300, 1200][(j - 16) as usize];
+            bump(d, &format!("api1-nested-{}", levels));
+            let mix = rng.chance(1, 2);
+            crate::hostile::nested_set(rng, levels, mix)
+        };
+        let payload = crate::hostile::fetch_payload(&corr, &t, part, 100, &set);
+        if payload.len() < 65000 {
+            out.push(format!("H rawreply {} {}", k, hex(&crate::hostile::frame(&payload))));
+        }
+    } else {
+        let nmut = if rng.chance(1, 8) { 2 } else { 1 };
+        for _ in 0..nmut {
+            // stratified by API so that rare replies are hit as often as frequent ones
+            let mut apis: Vec<i16> = replies.iter().map(|r| r.1).collect();
+            apis.sort();
+            apis.dedup();
+            let api = *rng.pick(&apis);
+            let cands: Vec<&(usize, i16, Vec<u8>)> = replies.iter().filter(|r| r.1 == api).collect();
+            let (k, _, p) = (*rng.pick(&cands)).clone();
+            let (raw, label) = crate::hostile::mutate(rng, api, &p);
+            bump(d, &format!("api{}-{}", api, label));
+            out.push(format!("H rawreply {} {}", k, hex(&raw)));
+        }
+    }
+    out.extend(base);
+    out
+}
